@@ -12,15 +12,19 @@ func c01Run(f []string) string {
 	if f[0] == "ptrace" {
 		return pipeTraceRun(f)
 	}
+	if strings.HasPrefix(f[0], "pmut") {
+		return "rejected" // the harness damaged this log itself: no run of the real code produces it
+	}
 	return pipeRun(f)
 }
 
 func c01Gen(r *Rand, tier string) []string {
 	if os.Getenv("VERIF_C01_ONLY") == "trace" { // stress runs of the trace tie alone
-		return pipeTraceGen(r, tier)
+		return append(pipeTraceGen(r, tier), pipeMutGen(r, tier)...)
 	}
 	out := pipeGen(r, tier)
-	return append(out, pipeTraceGen(r, tier)...)
+	out = append(out, pipeTraceGen(r, tier)...)
+	return append(out, pipeMutGen(r, tier)...)
 }
 
 func c01Stats(cases []string) map[string]int {
@@ -29,6 +33,8 @@ func c01Stats(cases []string) map[string]int {
 	for _, c := range cases {
 		if strings.HasPrefix(c, "ptrace ") {
 			traceStats(st, c)
+		} else if strings.HasPrefix(c, "pmut") {
+			st["trace.damaged."+strings.Fields(c)[0]]++
 		} else {
 			pipe = append(pipe, c)
 		}
